@@ -512,6 +512,9 @@ pub fn run_inner(which: Which, tier: Tier) -> i32 {
     l.extra.insert("ranges_checked".into(), json!(ranges));
     l.extra.insert("variants_with_findings".into(), json!(failing_variants));
     rep.layer(l);
+    if which == Which::C20 {
+        lsp_ranges_layer(&mut rep, tier);
+    }
     rep.distinct_nontrivial = total;
     rep.distinct_outcomes = 1 + rep.violations.iter().map(|v| v.key.clone()).collect::<BTreeSet<_>>().len() as u64;
     rep.rule = "each variant is a distinct (workspace, edit); non-trivial = every variant (each differs from its base by one edit or is a pathological shape)".into();
@@ -523,6 +526,149 @@ pub fn run_inner(which: Which, tier: Tier) -> i32 {
         rep.guard(ranges > 10_000, "more than 10000 ranges checked");
     }
     rep.finish()
+}
+
+/// Problems of one LSP range against the client's copy of the document.
+fn lsp_range_problem(doc: &crate::lsp::client::RefDoc, r: &Value) -> Option<String> {
+    let g = |v: &Value| Some((v["line"].as_u64()? as u32, v["character"].as_u64()? as u32));
+    let (Some(s), Some(e)) = (g(&r["start"]), g(&r["end"])) else { return Some("not a range".into()) };
+    let lines = doc.lines();
+    for (what, p) in [("start", s), ("end", e)] {
+        let Some((ls, le)) = lines.get(p.0 as usize) else { return Some(format!("{what} {p:?}: the document has {} lines", lines.len())) };
+        let len16: u32 = doc.text[*ls..*le].chars().map(|c| c.len_utf16() as u32).sum();
+        if p.1 > len16 {
+            return Some(format!("{what} {p:?}: line {} has {len16} UTF-16 code units", p.0));
+        }
+        if doc.offset_of(p.0, p.1).is_none() {
+            return Some(format!("{what} {p:?} is inside a character"));
+        }
+    }
+    if s > e {
+        return Some(format!("start {s:?} after end {e:?}"));
+    }
+    None
+}
+
+/// Server-level layer of C20: what the client receives after the conversion to LSP positions.
+/// Every document over an alphabet with multi-byte error characters and unterminated strings is
+/// opened on the real binary; every range of the published diagnostics and of the hover answers
+/// at every position must lie inside the client's copy of the document, on character boundaries.
+fn lsp_ranges_layer(rep: &mut Report, tier: Tier) {
+    use crate::lsp::client::RefDoc;
+    use crate::lsp::proc::Proc;
+    if !std::path::Path::new(&crate::lsp::proc::server_bin()).exists() {
+        rep.machinery("server binary not built");
+        return;
+    }
+    let syms: &[&str] = &["a", " ", "\n", "é", "😀", "\"", "(", "1"];
+    let n = tier.pick(4usize, 5usize);
+    let mut docs = vec![String::new()];
+    let mut frontier = vec![String::new()];
+    for _ in 0..n {
+        let mut next = vec![];
+        for f in &frontier {
+            for sy in syms {
+                next.push(format!("{f}{sy}"));
+            }
+        }
+        docs.extend(next.iter().cloned());
+        frontier = next;
+    }
+    let dir = crate::core::verif_root().join(".scratch/c20lsp");
+    let _ = std::fs::create_dir_all(&dir);
+    let chunks: Vec<(usize, &[String])> = docs.chunks(docs.len() / 32 + 1).enumerate().collect();
+    let res: Vec<(u64, u64, Vec<Violation>, Option<String>)> = chunks
+        .par_iter()
+        .map(|(ci, chunk)| {
+            let mut viol = vec![];
+            let (mut ranges, mut execs) = (0u64, 0u64);
+            let Ok(mut p) = Proc::spawn(&[]) else { return (0, 0, vec![], Some("cannot spawn the server".to_string())) };
+            p.send(&json!({"jsonrpc": "2.0", "id": 1, "method": "initialize", "params": {"processId": null, "rootUri": null, "capabilities": {}}}));
+            p.send(&json!({"jsonrpc": "2.0", "method": "initialized", "params": {}}));
+            let mut next_id = 10i64;
+            // waits for a message satisfying `want`; server requests are answered with null
+            let mut wait = |p: &mut Proc, want: &dyn Fn(&Value) -> bool| -> Option<Value> {
+                let deadline = std::time::Instant::now() + Duration::from_secs(20);
+                while std::time::Instant::now() < deadline {
+                    match p.recv(Duration::from_millis(50)) {
+                        Ok(Some(v)) => {
+                            if v.get("id").is_some() && v.get("method").is_some() {
+                                p.send(&json!({"jsonrpc": "2.0", "id": v["id"], "result": null}));
+                                continue;
+                            }
+                            if want(&v) {
+                                return Some(v);
+                            }
+                        }
+                        Ok(None) => return None,
+                        Err(()) => {}
+                    }
+                }
+                None
+            };
+            for (di, text) in chunk.iter().enumerate() {
+                let uri = format!("file://{}/c{ci}d{di}.gleam", dir.display());
+                let doc = RefDoc::new(text.clone());
+                execs += 1;
+                p.send(&json!({"jsonrpc": "2.0", "method": "textDocument/didOpen", "params": {"textDocument": {"uri": uri, "languageId": "gleam", "version": 1, "text": text}}}));
+                let Some(d) = wait(&mut p, &|v| v["method"].as_str() == Some("textDocument/publishDiagnostics") && v["params"]["uri"].as_str() == Some(uri.as_str())) else {
+                    return (ranges, execs, viol, Some(format!("no diagnostics published for {text:?}")));
+                };
+                let mut bad = |what: &str, r: &Value, why: String, viol: &mut Vec<Violation>| {
+                    if viol.len() < 6 {
+                        let astral = text.contains('😀');
+                        viol.push(Violation { class: "lsp-range-outside-document".into(), key: format!("lsp|{what}|{}", if astral { "document with a 4-byte character" } else if !text.is_ascii() { "document with a 2-byte character" } else { "ASCII document" }), witness: json!({"lsp_document": text, "what": what}), detail: format!("document {text:?}: {what} range {r} - {why}") });
+                    }
+                };
+                for dg in d["params"]["diagnostics"].as_array().cloned().unwrap_or_default() {
+                    ranges += 1;
+                    if let Some(why) = lsp_range_problem(&doc, &dg["range"]) {
+                        bad("diagnostic", &dg["range"], why, &mut viol);
+                    }
+                }
+                for ((l, c), _) in doc.valid_positions() {
+                    next_id += 1;
+                    let id = next_id;
+                    p.send(&json!({"jsonrpc": "2.0", "id": id, "method": "textDocument/hover", "params": {"textDocument": {"uri": uri}, "position": {"line": l, "character": c}}}));
+                    let Some(h) = wait(&mut p, &|v| v["id"].as_i64() == Some(id) && v.get("method").is_none()) else {
+                        return (ranges, execs, viol, Some(format!("hover not answered for {text:?}")));
+                    };
+                    if let Some(r) = h["result"].get("range") {
+                        if !r.is_null() {
+                            ranges += 1;
+                            if let Some(why) = lsp_range_problem(&doc, r) {
+                                bad("hover", r, why, &mut viol);
+                            }
+                        }
+                    }
+                }
+                p.send(&json!({"jsonrpc": "2.0", "method": "textDocument/didClose", "params": {"textDocument": {"uri": uri}}}));
+            }
+            p.send(&json!({"jsonrpc": "2.0", "id": 2, "method": "shutdown", "params": null}));
+            let _ = wait(&mut p, &|v| v["id"].as_i64() == Some(2));
+            p.send(&json!({"jsonrpc": "2.0", "method": "exit", "params": null}));
+            p.close_stdin();
+            let _ = p.wait_exit(Duration::from_secs(3));
+            (ranges, execs, viol, None)
+        })
+        .collect();
+    let mut l = Layer { name: "lsp-ranges-on-the-wire".into(), states: docs.len() as u64, exhaustive: true, ..Default::default() };
+    let mut seen = BTreeSet::new();
+    for (ranges, execs, viol, mach) in res {
+        l.transitions += ranges;
+        l.executions += execs;
+        if let Some(m) = mach {
+            rep.machinery(format!("lsp-ranges layer: {m}"));
+        }
+        for v in viol {
+            if seen.insert(v.key.clone()) {
+                rep.violation(v);
+            }
+        }
+    }
+    rep.guard(l.transitions > 100, "more than 100 ranges seen on the wire");
+    l.bound = format!("all documents <= {n} symbols over {{a, space, LF, 2-byte and 4-byte characters (lexer errors), an unterminated string quote, `(`, a digit}} opened on the real binary: every range of the published diagnostics and of the hover answer at every position, resolved in the client's copy of the document (line exists, column within the line's UTF-16 length, not inside a character, start <= end)");
+    rep.layer(l);
 }
 
 /// Descriptions of variants that C10's known findings list as killing the process.
